@@ -26,7 +26,78 @@ mod sinkwalk;
 mod walkprops;
 mod smoke;
 
+/// properties whose scenario-independent core rule exists as a universal monitor
+/// (harness/src/universal.rs): their checks also run that monitor over the workloads of the other
+/// connection-level checks ("cross mode")
+const CROSS_TARGETS: &[&str] = &["C03", "C04", "C05", "C07", "C08", "C14", "C15", "C19"];
+
+fn conn_part(opts: &Opts, f: fn(&Opts, &crate::report::Report)) -> i32 {
+    let rep = crate::report::Report::new(opts, "exploration", "cross workload");
+    f(opts, &rep);
+    rep.finish()
+}
+
+/// workloads of the connection-level checks, in a fixed order (the order defines the numbering of
+/// the parallel loops a replay file refers to)
+fn cross_sources() -> Vec<(&'static str, Box<dyn Fn(&Opts) -> i32>)> {
+    vec![
+        ("C03", Box::new(c03::run)),
+        ("C04", Box::new(c04::run)),
+        ("C05", Box::new(|o: &Opts| walkprops::run(o, "C05"))),
+        ("C06", Box::new(c06::run)),
+        ("C07", Box::new(c07::run)),
+        ("C08", Box::new(c08::run)),
+        ("C09", Box::new(|o: &Opts| conn_part(o, c09_conn::run_part))),
+        ("C10", Box::new(|o: &Opts| conn_part(o, c10_conn::run_part))),
+        ("C11", Box::new(c11::run)),
+        ("C12", Box::new(c12::run)),
+        ("C13", Box::new(|o: &Opts| walkprops::run(o, "C13"))),
+        ("C14", Box::new(c14::run)),
+        ("C15", Box::new(c15::run)),
+        ("C16", Box::new(c16::run)),
+        ("C17", Box::new(c17::run)),
+        ("C18", Box::new(|o: &Opts| conn_part(o, c18_conn::run_part))),
+        ("C19", Box::new(c19::run)),
+    ]
+}
+
+fn cross_enabled(opts: &Opts) -> bool {
+    CROSS_TARGETS.contains(&opts.prop.as_str())
+        && opts.cross.is_none()
+        && std::env::var("VERIF_NO_CROSS").as_deref() != Ok("1")
+        && std::env::var("VERIF_SANITIZER").is_err()
+}
+
 pub fn run(opts: &Opts) -> i32 {
+    if cross_enabled(opts) {
+        // the other checks' workloads first, judged only by this property's universal monitor
+        let factor = match opts.tier {
+            crate::report::Tier::Quick => 0.25,
+            crate::report::Tier::Thorough => 4.0,
+        };
+        let only: Option<Vec<String>> = std::env::var("VERIF_CROSS_ONLY").ok().map(|s| s.split(',').map(str::to_string).collect());
+        for (name, f) in cross_sources() {
+            if name == opts.prop || only.as_ref().is_some_and(|o| !o.iter().any(|x| x == name)) {
+                continue;
+            }
+            let o2 = Opts {
+                prop: opts.prop.clone(),
+                tier: crate::report::Tier::Quick,
+                seed: opts.seed,
+                replay: None,
+                hooks: opts.hooks,
+                build: opts.build.clone(),
+                scale: opts.scale * factor,
+                extra: vec![],
+                cross: Some(name.to_string()),
+            };
+            let _ = f(&o2);
+        }
+    }
+    run_own(opts)
+}
+
+fn run_own(opts: &Opts) -> i32 {
     match opts.prop.as_str() {
         "C01" => c01::run(opts),
         "C02" => c02::run(opts),
